@@ -307,6 +307,9 @@ package ice
 //@ func (*UDPMuxDefault).GetConn
 //@   props C12 C13
 //@   opt nosafety
+//@   modifies fam:H_ice.UDPMuxDefault.*, fam:H_ice.udpMuxedConn.*, fam:H_ice.sharedPacketConn.*, fam:H_ice.sharedAddrPortConn.*, fam:M_string_*, fam:M_ice.ipPort_*, fam:Chan.closed
+//@   ensures C09 a-successful-call-hands-out-a-new-reference-object-that-has-to-be-closed-once: result1 == nil ==> result0 != nil && result0.payload != nil && fresh(result0.payload) && result0.gClosed == 0 && !result0.gHeld
+//@   ensures C09 an-error-hands-out-nothing: result1 != nil ==> result0 == nil
 //@   ghostvar created bool = false
 //@   ghostvar foundOpen bool = false
 //@   ghostvar retained bool = false
